@@ -151,10 +151,64 @@ fn run(ctx: &mut Ctx) {
             });
         }
     }
+    let big = Arena::new(270);
+    // two candidates: the first occurrence decides, however good the second one looks
+    ctx.bound("two_candidates", "buffers of 256, 8200 and 8256 bytes with two occurrences of the magic: the first at {0, 8, 12, 64} in a state from {bare magic, header with valid checksum (length 16 / 24), wrong checksum, all-ones length, stored length beyond the buffer}, the second 16 / 24 / 40 bytes further or at 4096 / 8176 / 8184 in each of these states or cut off by the buffer end; both architectures");
+    {
+        let cand = |state: usize, arch: u32, room: usize| -> Vec<u8> {
+            let mut v = MAGIC_LE.to_vec();
+            let (len, good): (u32, bool) = match state {
+                0 => return v,
+                1 => (16, true),
+                2 => (24, true),
+                3 => (16, false),
+                4 => (0xFFFF_FFFF, true),
+                _ => (room as u32 + 8, true),
+            };
+            v.extend_from_slice(&arch.to_le_bytes());
+            v.extend_from_slice(&len.to_le_bytes());
+            let cs = 0u32.wrapping_sub(0xE852_50D6).wrapping_sub(arch).wrapping_sub(len);
+            v.extend_from_slice(&(if good { cs } else { 0x1234_5678 }).to_le_bytes());
+            if state == 2 {
+                v.extend_from_slice(&[0, 0, 0, 0, 8, 0, 0, 0]);
+            }
+            v
+        };
+        for l in [256usize, 8200, 8256] {
+            for first in [0usize, 8, 12, 64] {
+                for s1 in 0..6 {
+                    let mut seconds: Vec<usize> = vec![first + 16, first + 24, first + 40];
+                    if l > 8192 {
+                        seconds.extend([4096, 8176, 8184, l - 8, l - 4]);
+                    } else {
+                        seconds.extend([l - 16, l - 8, l - 4]);
+                    }
+                    for second in seconds {
+                        for s2 in 0..6 {
+                            for arch in [0u32, 4] {
+                                let describe = || J::obj().set("part", "two_candidates").set("buffer_len", l).set("first_at", first).set("first_state", s1).set("second_at", second).set("second_state", s2).set("architecture", arch);
+                                ctx.leaf(describe, |ctx| {
+                                    let mut img = vec![0u8; l];
+                                    // the second one first, the first one on top of it where they overlap
+                                    let c2 = cand(s2, arch, l - second);
+                                    let n2 = c2.len().min(l - second);
+                                    img[second..second + n2].copy_from_slice(&c2[..n2]);
+                                    let c1 = cand(s1, arch, l - first);
+                                    img[first..first + c1.len()].copy_from_slice(&c1);
+                                    ctx.state(hash::hash_bytes(&img));
+                                    ctx.nontrivial();
+                                    exec_image(ctx, &big, &img);
+                                });
+                            }
+                        }
+                    }
+                }
+            }
+        }
+    }
     // large buffers and large stored lengths (the specification's 32 KiB header limit, 16-bit and 20-bit boundaries)
     let bigl: Vec<usize> = if quick { vec![32768 + 16, 65536 + 8, 1 << 20] } else { vec![32768 - 8, 32768, 32768 + 16, 65536 - 8, 65536, 65536 + 8, 65543, 1 << 20, (1 << 20) + 24] };
     ctx.bound("large_buffers", format!("buffer lengths {:?}; magic at offset {{0, 8, 4096, 8184}}; stored length in {{L-i, L-i-8, L-i+8, 32760, 32768, 32776, 65528, 65536, 65544, 16}}", bigl));
-    let big = Arena::new(270);
     for &l in &bigl {
         for at in [0usize, 8, 4096, 8184] {
             let rest = (l - at) as u32;
